@@ -1,5 +1,6 @@
 import Gv.Oracle.Common
 import Gv.Spec.Bag
+import Gv.Model.Rand
 /-! Oracle handler for container histories (C01): `hist <A|B> <alphabet> <rows> <ops>`. -/
 namespace Gv.Oracle.BagOps
 open Gv Gv.Oracle Gv.Model
@@ -77,6 +78,24 @@ def frac (s : String) : Option (Nat × Nat) :=
 RNG-aware handler in `Gv/Oracle/Rand.lean`; here `perm` fields arrive already resolved (`p1+p2+…`). -/
 def decPerm (s : String) : List Nat := if s == "_" || s == "" then [] else (s.splitOn "+").filterMap String.toNat?
 
+/-- operations whose random draws are resolved, at the step where they are applied, by the replica of
+Go's generator seeded as the harness seeds the real one -/
+inductive OpX where
+  | plain (op : Op)
+  | shuffle (seed : Int)
+  | sample (nb : Int) (seed : Int)
+
+def resolve (n : Nat) : OpX → Op
+  | .plain op => op
+  | .shuffle seed => .permute (runSeed (shuffleAux n (List.range n)) seed)
+  | .sample nb seed => .sample nb (runSeed (permProg n) seed)
+
+def decOpX (s : String) : Option (OpX × List String) :=
+  match s.splitOn ":" with
+  | ["shuffle", sd] => (parseInt? sd).map fun v => (.shuffle v, [])
+  | ["sample", nb, sd] => do let a ← parseInt? nb; let b ← parseInt? sd; pure (.sample a b, [])
+  | _ => none
+
 def decOp (s : String) : Option (Op × List String) :=
   match s.splitOn ":" with
   | ["add", n, q] => some (.add (pctDec n) (bytesOfString q), [pctDec n, pctDec n ++ "_0001"])
@@ -124,19 +143,21 @@ def initSpec (kind : String) (alpha : Nat) (rows : List (String × Seq)) : Spec.
   let b0 : Spec.SBag := { alphabet := if kind == "A" && alpha == BOTH then NUCLEOTIDS else alpha, isAlign := kind == "A" }
   rows.foldl (fun (acc : Spec.SBag × Bool) r => let a := Spec.add acc.1 r.1 r.2; (a.1, acc.2 || a.2)) (b0, false)
 
-def traceModel : Bag → List String → List (Op × List String) → List String
+def traceModel : Bag → List String → List (OpX × List String) → List String
   | _, _, [] => []
-  | b, probes, (op, pr) :: t =>
+  | b, probes, (opx, pr) :: t =>
     let probes := probes ++ pr
+    let op := resolve b.rows.length opx
     let r := stepOp b op
     if r.2 == "PANIC" then ["PANIC"] else
     (r.2 ++ "|" ++ render (obsModel r.1 probes)) :: traceModel r.1 probes t
 
 /-- the reference trace; stops (returns what it has) when the reference leaves the state unspecified -/
-def traceSpec : Spec.SBag → List String → List (Op × List String) → List String
+def traceSpec : Spec.SBag → List String → List (OpX × List String) → List String
   | _, _, [] => []
-  | b, probes, (op, pr) :: t =>
+  | b, probes, (opx, pr) :: t =>
     let probes := probes ++ pr
+    let op := resolve b.rows.length opx
     match Spec.stepOp b op with
     | (some b', st) => (st ++ "|" ++ render (obsSpec b' probes)) :: traceSpec b' probes t
     | (none, _) => []
@@ -159,7 +180,10 @@ def handle : Handler := fun op args impl =>
   | "hist", [kind, alpha, rows, ops] => do
     let alpha ← alpha.toNat?
     let rows := decPRows rows
-    let opl ← (if ops == "_" || ops == "" then some [] else (ops.splitOn ";").mapM decOp)
+    let opl ← (if ops == "_" || ops == "" then some [] else (ops.splitOn ";").mapM fun o =>
+      match decOpX o with
+      | some x => some x
+      | none => (decOp o).map fun p => (OpX.plain p.1, p.2))
     let probes0 := rows.map Prod.fst
     let (m0, e0) := initModel kind alpha rows
     let mtrace := ((if e0 then "err" else "ok") ++ "|" ++ render (obsModel m0 probes0)) :: traceModel m0 probes0 opl
